@@ -97,6 +97,12 @@ def main():
         if replay:
             if r.returncode in (0, 1):
                 return r.returncode
+            # scenario lists differ per tier: try the other tier before giving up on this stage
+            other = "thorough" if tier == "quick" else "quick"
+            cmd2 = [other if x == tier and i > 0 and cmd[i - 1] == "--tier" else x for i, x in enumerate(cmd)]
+            r = subprocess.run(cmd2, cwd=VERIF, env=env)
+            if r.returncode in (0, 1):
+                return r.returncode
             continue  # this stage did not recognise the replay file
         if r.returncode not in (0, 1) or not os.path.exists(out):
             print("HARNESS-ERROR property=%s stage=%s exit=%d" % (pid, st["name"], r.returncode))
